@@ -3,6 +3,7 @@
 package main
 
 import (
+	"context"
 	"encoding/json"
 	"flag"
 	"fmt"
@@ -73,6 +74,16 @@ func waitParked(e *engine, live func(i int) bool, needSync bool) bool {
 	return false
 }
 
+// aclTable hides some targets from every RPC.
+type aclTable struct{ hidden map[string]bool }
+
+func (a aclTable) Check(target string) bool { return !a.hidden[target] }
+
+type aclACL struct{ t aclTable }
+
+func (a aclACL) NewRPCACL(context.Context) (subscribe.RPCACL, error) { return a.t, nil }
+func (a aclACL) Check(string, string) bool                           { return true }
+
 // evRec is one atomic step of the run, in the order it happened.
 type evRec struct {
 	kind string // write feed unlock regall walk sync deq read sent timeout
@@ -123,7 +134,17 @@ func runStall(cs *Case) (*Obs, []evRec) {
 	// the (duplicates, queue length) pair of the dequeue that precedes a Send
 	pending := make([]*[2]int, n)
 	timeout := time.Duration(cs.TimeoutMs) * time.Millisecond
-	e = newEngine(cs, subscribe.WithTimeout(timeout), subscribe.WithStats(),
+	var aclOpt subscribe.Option
+	quietFor := time.Duration(0)
+	if len(cs.Hidden) > 0 {
+		h := map[string]bool{}
+		for _, t := range cs.Hidden {
+			h[t] = true
+		}
+		aclOpt = subscribe.WithACL(aclACL{aclTable{h}})
+		quietFor = 3*timeout + 20*time.Millisecond
+	}
+	e = newEngine(cs, subscribe.WithTimeout(timeout), subscribe.WithStats(), aclOpt,
 		subscribe.WithClientStatsTest(func(dup, q int64) {
 			// only phase 2 is a known schedule: while a subscription starts, its walk
 			// and its sender run side by side and Len() is read after Next returned
@@ -246,6 +267,7 @@ func runStall(cs *Case) (*Obs, []evRec) {
 		if !waitParked(e, func(j int) bool { return j == i }, true) {
 			obs.Bad = "subscriber did not reach its sync"
 		}
+		time.Sleep(quietFor) // after the sync marker (sent without the timer) nothing may be armed
 	}
 	nearly := n
 	if cs.Late {
@@ -322,6 +344,13 @@ func runStall(cs *Case) (*Obs, []evRec) {
 		nres++
 		if obs.Bad == "" && !waitParked(e, live, false) {
 			obs.Bad = "senders did not settle after a write"
+		}
+		for _, t := range cs.Hidden {
+			if t == o.P[0] {
+				// the ACL-denied response was dropped: no send is in progress, so no timer
+				// may be running during a quiet period of several timeouts
+				time.Sleep(quietFor)
+			}
 		}
 		bmu.Lock()
 		written++
@@ -444,6 +473,9 @@ func runStall(cs *Case) (*Obs, []evRec) {
 	lmu.Lock()
 	out := append([]evRec(nil), log...)
 	lmu.Unlock()
+	if len(cs.Hidden) > 0 {
+		out = nil // ACL-denied responses are not in the transition system: K_P only
+	}
 	return obs, out
 }
 
@@ -646,7 +678,7 @@ func (e *emitter) caseTerm(cs *Case, obs *Obs, log []evRec) string {
 		coal[i] = natT(c)
 	}
 	b.WriteString(vh.List(coal) + " ")
-	b.WriteString(vh.Bool(obs.Returned) + " " + vh.Bool(bad) + " " + vh.Bool(cs.Late))
+	b.WriteString(vh.Bool(obs.Returned) + " " + vh.Bool(bad) + " " + vh.Bool(cs.Late) + " " + e.path(cs.Hidden))
 	return b.String()
 }
 
@@ -795,6 +827,34 @@ func genCase(r *vh.Rand, dead bool) *Case {
 	return cs
 }
 
+// genACL: never-stalled subscribers of all targets ("*") behind an ACL that hides t2, writes
+// to both targets, quiet periods of three timeouts after every hidden-target write.
+func genACL(r *vh.Rand) *Case {
+	cs := &Case{Family: "acl-quiet", Mode: "stall", ED: false, NW: 1, Seed: r.U64() % 1000000, TimeoutMs: 50, Hidden: []string{"t2"}, CancelSub: -1}
+	ts := int64(1)
+	for i, n := 0, 2+r.Intn(4); i < n; i++ {
+		t := targets[r.Intn(2)]
+		ts++
+		cs.Ops = append(cs.Ops, Op{W: 0, K: "upd", P: append([]string{t}, leafUniverse[r.Intn(2)]...), V: int64(1 + r.Intn(5)), TS: ts})
+	}
+	// at least one hidden write, followed by a visible one
+	ts++
+	cs.Ops = append(cs.Ops, Op{W: 0, K: "upd", P: []string{"t2", "a", "x"}, V: 7, TS: ts})
+	ts++
+	cs.Ops = append(cs.Ops, Op{W: 0, K: "upd", P: []string{"t1", "a", "x"}, V: 8, TS: ts})
+	shapes := [][]string{{"*"}, {"*", "a"}, {"*", "*", "x"}, {"t1"}, {"t1", "a"}}
+	for i, n := 0, 2+r.Intn(2); i < n; i++ {
+		q := shapes[r.Intn(len(shapes))]
+		if i == 0 {
+			q = shapes[r.Intn(3)]
+		}
+		cs.Subs = append(cs.Subs, SubCfg{Qs: [][]string{q}, UO: r.Chance(1, 5)})
+		cs.Stall = append(cs.Stall, 0)
+		cs.Plan = append(cs.Plan, nil)
+	}
+	return cs
+}
+
 func readCases(path string) []*Case {
 	b, err := os.ReadFile(path)
 	if err != nil {
@@ -854,6 +914,13 @@ func main() {
 	}
 	for i := 0; i < ndead && e.bad < 3; i++ {
 		e.run(genCase(r.Fork(), true))
+	}
+	nacl := 12
+	if o.Thorough() {
+		nacl = 300
+	}
+	for i := 0; i < nacl && e.bad < 3; i++ {
+		e.run(genACL(r.Fork()))
 	}
 	e.flush()
 	if err := meta.Write(o.Out); err != nil {
